@@ -97,6 +97,11 @@ CHECKS = {
    ref="DESIGN.md 3.4, 4 C18",
    note=TB + " crypto/rand.Reader is concurrency-safe by contract; data-race freedom inside the standard library is not analysed.",
    tech="static analysis: global-write / escape analysis (interprocedural alias analysis over SSA), import and instruction scan"),
+ "C19": dict(cat="other",
+   text="Compares every Build* method with a reference table (field <- argument by position, slices copied, exactly one append to the container's current content, nothing else stored, element returned iff documented); NewHeader/NewMessage field and flag assignments with the accessors evaluated over all 256 flag values; the 3GPP helpers' layouts (vendor 10415 / type 3 / message ids / spare / BE16 NAS length / PDU; 5G_QOS_INFO element order and DCSI/DSCPI bits; notify type constants) through the encode-side buffer tables; and proves every narrowing length conversion lossless from its dominating guard. net.ParseIP is not analysed.",
+   ref="DESIGN.md 4 C19",
+   note=TB + " spec/builders.json written from the builders' documented meaning and TS 24.502.",
+   tech="static analysis: field<-parameter table extraction on SSA, buffer-family tables, finite-domain evaluation of flag accessors, interval proofs for narrowing conversions"),
  "C20": dict(cat="proof",
    text="Proof of a sufficient structural condition: an interprocedural alias analysis (type-keyed heap abstraction) shows no decoded field or API result aliases a decoder's input slice except the documented IKEHeader.PayloadBytes; over the encode scope nothing is written through message-owned memory, the field mod-set is header bookkeeping only, returned buffers are fresh, no random/time/map-order dependence is reachable; encryptMsg's transitive mod-set is the payload list, header bookkeeping and the fresh Encrypted payload.",
    ref="DESIGN.md 3.4, 4 C20",
